@@ -2,7 +2,7 @@
    For ANY number of callers, ANY operation lists and ANY schedule (every interleaving at the granularity of the atomic lock
    blocks, getter steps and inner-cache operations; getters may fail at their step). *)
 From Coq Require Import ZArith List Bool.
-From Coba Require Import C19.Model C19.Proofs.
+From Coba Require Import C19.Model C19.Proofs C19.ProofsFair.
 Import ListNotations.
 Open Scope Z_scope.
 
@@ -35,6 +35,27 @@ Theorem no_deadlock : forall progs sched, let s := run sched (init progs) in
   forallb finished (callers s) = false -> exists t b, moves s t b.
 Proof. exact (fun progs sched => Proofs.no_deadlock _ (reachable_inv progs sched)). Qed.
 Print Assumptions no_deadlock.
+
+
+(* no caller waits for ever.  mu is a potential (the number of protocol steps the callers still have before them); a step either leaves the state unchanged
+   (a spin on the counter) or lowers mu; in every round that schedules each caller at least once, while somebody is unfinished, some non-spinning step
+   happens (no_deadlock keeps a move enabled until a move is made); hence after at most mu rounds - 8 per pending operation - everybody has finished,
+   under ANY scheduler that keeps scheduling every caller, for any getter outcomes *)
+Theorem every_step_spins_or_lowers_the_potential : forall tb s, step tb s = s \/ (mu (step tb s) < mu s)%nat.
+Proof. exact step_spin_or_dec. Qed.
+Print Assumptions every_step_spins_or_lowers_the_potential.
+
+Theorem every_fair_round_makes_progress : forall s sched, Inv s -> forallb finished (callers s) = false -> covers (length (callers s)) sched -> (mu (run sched s) < mu s)%nat.
+Proof. exact fair_round_progress. Qed.
+Print Assumptions every_fair_round_makes_progress.
+
+Theorem no_caller_waits_for_ever : forall progs rounds, Forall (covers (length progs)) rounds -> (mu (init progs) <= length rounds)%nat ->
+  forallb finished (callers (run (concat rounds) (init progs))) = true.
+Proof.
+  exact (fun progs rounds Hc Hm => fair_rounds_terminate rounds (init progs) (init_inv progs)
+           (eq_ind_r (fun n => Forall (covers n) rounds) Hc (map_length _ progs)) Hm).
+Qed.
+Print Assumptions no_caller_waits_for_ever.
 
 (* the getter runs only when the entry is not cached; a getter or inner write that fails leaves the entry absent and the lock free *)
 Theorem single_flight_step : forall b a ch k td, ch k = Present -> cpc (fst (fst (step_caller b a ch {| cpc := G3 k; todo := td |}))) = GBody k.
